@@ -26,7 +26,8 @@ def run(ctx):
     runs = [("ImageCopyMC", "C14_mc_quick.cfg", "img / empty / schema1 / inline: every pre-existing subset x 6 pairings x mount on/off x 3 tag states, reduced", {}),
             ("ImageCopyMC", "C14_mc_quick2.cfg", "dup / idx2 / docker: corner targets x 3 registry pairings x mount on/off x 3 tag states, reduced", {})]
     if th:
-        runs += [("ImageCopyMC", "C14_mc_t1.cfg", "6 shapes incl. idx2 / docker: every pre-existing subset x 6 pairings x mount on/off x 3 tag states, reduced", {"timeout": 3000}),
+        runs += [("ImageCopyMC", "C14_mc_t3.cfg", "img / schema1, every pre-existing subset, mount on/off, 1 fault (transient faults absorbed), full interleaving", {"timeout": 3000}),
+                 ("ImageCopyMC", "C14_mc_t1.cfg", "6 shapes incl. idx2 / docker: every pre-existing subset x 6 pairings x mount on/off x 3 tag states, reduced", {"timeout": 3000}),
                  ("ImageCopyMC", "C14_mc_t2.cfg", "14 shapes x 6 pairings x mount on/off x corner targets x 3 tag states, reduced", {"timeout": 3000})]
     mc, states, trans = cc.run_mc(ctx, runs)
 
@@ -49,7 +50,22 @@ def run(ctx):
             extra.append(e.scn(sh, pr, "all-but-tag", init=allnames, tag0="stale"))
         for m in (0, 1):
             extra.append(e.scn(sh, "samereg", "mount", mount=m))
-    res = e.run(scripts + mx + mx2 + extra, "minimal")
+    # transient, retryable faults (429 / 500 / connection reset, fewer than the retry limit) have to be absorbed
+    # without changing what is transferred: one such fault at every request position of runs whose target already
+    # holds some / all of the blobs
+    base = []
+    for sh in e.shapes:
+        blobs = [n["name"] for n in e.cat[sh]["nodes"] if n["kind"] == "blob"]
+        for pr in ("tworeg", "samereg", "dir2reg", "reg2dir"):
+            for init in ([blobs, blobs[::2]] if th else [rng.choice([blobs, blobs[::2], blobs[1::2] or blobs])]):
+                base.append(e.scn(sh, pr, "tbase", init=sorted(init), mode="fifo", mount=rng.choice([0, 1]),
+                                  tag0=rng.choice(["none", "stale"])))
+    bres = e.run(base, "transient baselines")
+    tr = e.sweep(bres, lambda p: cc.RETRYABLE, "transient", cancel=False, death=False)
+    tr = cc.cover_sample(rng, tr, 9000 if th else 700,
+                         [lambda s: (s["shape"], s["pair"], s["faults"][0]["class"]), lambda s: (s["faults"][0]["class"], s["faults"][0]["kind"]),
+                          lambda s: (s["shape"], s["faults"][0]["class"] == "blob_head", s["faults"][0]["n"])])
+    res = bres + e.run(scripts + mx + mx2 + extra + tr, "minimal")
 
     acc, rej = e.validate(res, "C14", max_reports=40)
     e.check_stalls()
